@@ -175,15 +175,34 @@ def gen_history(rng, nupd, allow_bad=True, only_kinds=None):
     kinds = only_kinds or ['generate', 'generate', 'add', 'delete', 'divide', 'move']
     for i in range(nupd):
         col = rng.choice(['A', 'B'])
+        if i >= 2 and only_kinds is None and rng.random() < 0.15:
+            # one cached directive object addressed to both colonies (entry 3 = index of the update whose
+            # Python object is handed in again): an _add of a new key, or a _delete of a key both hold
+            other = 'B' if col == 'A' else 'A'
+            both = [k for k in colonies['A'] if k in colonies['B'] and colonies['A'][k] is None
+                    and colonies['B'][k] is None]
+            if both and rng.random() < 0.5:
+                k = rng.choice(both)
+                del colonies['A'][k], colonies['B'][k]
+                ops = [['delete', k]]
+            else:
+                k = fresh()
+                colonies['A'][k] = colonies['B'][k] = None
+                ops = [['add', k, {'s': {'n': rng.randint(0, 9)}}]]
+            hist.append([col, ops])
+            hist.append([other, ops, len(hist) - 1])
+            continue
         nops = 1 if rng.random() < 0.75 else rng.randint(2, 3)
         ops, used = [], set()
         touched.clear()
         before = set(colonies[col].keys())
         for _ in range(nops):
-            op = one_op(col, kinds if i >= 2 else ['generate'], before)
+            ks = kinds if i >= 2 else ['generate']
+            if 'divide' in used:
+                # '_divide' holds a single entry (decided before one_op updates its bookkeeping)
+                ks = [k for k in ks if k != 'divide'] or ['generate']
+            op = one_op(col, ks, before)
             tag = op[0] if op[0] != 'delete_path' else 'delete'
-            if tag == 'divide' and 'divide' in used:
-                continue          # '_divide' holds a single entry
             used.add(tag)
             ops.append(op)
         hist.append([col, ops])
@@ -287,8 +306,14 @@ def run_history(hist):
     holder = eng.state.get_path(('holder',))
     prev = dump_tree(eng.state, keep)
     obs = []
-    for col, ops in hist:
+    handed = []
+    for entry in hist:
+        col, ops = entry[0], entry[1]
         upd, seed = py_update(col, ops)
+        if len(entry) > 2:
+            # the very directive object of an earlier update, addressed to another colony
+            upd = {col: list(handed[entry[2]].values())[0]}
+        handed.append(upd)
         if seed is not None:
             random.seed(seed)
         try:
@@ -376,14 +401,14 @@ def r_book(b):
 
 
 def render(c, ob, variant='vfixed'):
-    hist = clist([cpair(r_path([col]), clist([r_op(o) for o in ops])) for col, ops in c['hist'][:len(ob['obs'])]])
+    hist = clist([cpair(r_path([e[0]]), clist([r_op(o) for o in e[1]])) for e in c['hist'][:len(ob['obs'])]])
     exp = clist(['None' if 'err' in o else '(Some (%s, %s))' % (r_anode(o['tree']), r_book(o['book']))
                  for o in ob['obs']])
     return '(HHist %s %s %s)' % (variant, hist, exp)
 
 
 def stat_key(c, ob):
-    kinds = sorted({op[0] for _, ops in c['hist'] for op in ops})
+    kinds = sorted({op[0] for e in c['hist'] for op in e[1]})
     return 'updates=%d/%s' % (len(c['hist']), 'err' if any('err' in o for o in ob['obs']) else 'ok')
 
 
